@@ -2823,9 +2823,17 @@ class PGPKeyring(collections_abc.Container, collections_abc.Iterable, collection
 
         return alias
 
+    def _spaced_id(self, alias):
+        # the keys selected by a fingerprint or key id written with spaces.  Names and comments can consist of the
+        # letters a-f as well ('Ada Fee', 'Dee Dee'); they are matched as they are, never with their spaces removed
+        compact = self._compact(alias)
+        if compact is alias:
+            return []
+
+        return [key for key in self._get_keys(compact) if key.fingerprint == compact]
+
     def __contains__(self, alias):
-        aliases = set().union(*self._aliases)
-        return alias in aliases or self._compact(alias) in aliases
+        return any(alias in m for m in self._aliases) or bool(self._spaced_id(alias))
 
     def __len__(self):
         return len(self._keys)
@@ -2835,10 +2843,12 @@ class PGPKeyring(collections_abc.Container, collections_abc.Iterable, collection
             yield pgpkey
 
     def _get_key(self, alias):
-        for candidate in (alias, self._compact(alias)):
-            for m in self._aliases:
-                if candidate in m:
-                    return self._keys[m[candidate]]
+        for m in self._aliases:
+            if alias in m:
+                return self._keys[m[alias]]
+
+        for key in self._spaced_id(alias):
+            return key
 
         raise KeyError(alias)
 
